@@ -392,6 +392,16 @@ namespace bxdecay0 {
   {
     if (is_trace()) std::cerr << "[trace] bxdecay0::event_reader::_at_unconfigure_: Entering...\n";
     _close_current_file_();
+    // Forget the reading progress, so that the reader can be configured again:
+    _terminated_ = false;
+    _pimpl_->current_file_index = -1;
+    _pimpl_->last_event_in_file_index = -1;
+    _pimpl_->parsed_event_counter = 0;
+    _pimpl_->loaded_event_counter = 0;
+    _pimpl_->begin_event_file_index = -1;
+    _pimpl_->begin_event_in_file_index = -1;
+    _pimpl_->end_event_file_index = -1;
+    _pimpl_->end_event_in_file_index = -1;
     if (is_trace()) std::cerr << "[trace] bxdecay0::event_reader::_at_unconfigure_: Exiting...\n";
     return;
   }
